@@ -4,5 +4,5 @@ PID = "C08"
 MIX = [("full", {}), ("extfull", {}), ("dircfull", {}), ("full", {})]
 RULE = ('volumes filled to within 0..150 blocks of full (DD floppy holding a directory, an old file and a filler), then every allocation site hit at exhaustion: data block at each alignment, extension block, entry, cache block; short counts must equal what was stored, earlier content unchanged, image valid, exact accounting, refill')
 def run(res):
-    histprop.run(res, PID, MIX, {"C01", "C02", "C03", "C04", "C05", "C07"}, RULE, nquick=40, nthorough=800)
+    histprop.run(res, PID, MIX, {"C01", "C02", "C03", "C04", "C05", "C07", "BM"}, RULE, nquick=40, nthorough=800)
 replay = histprop.replay
